@@ -80,13 +80,13 @@ def _run_batch(prop: str, batch: list[tuple[int, dict]], workroot: Path, bi: int
 
 
 def run_cases(prop: str, cases: list[dict], *, timeout: float = 1500.0, boundscheck: bool = False,
-              nproc: int | None = None, batches_per_proc: int = 2) -> list[dict]:
+              nproc: int | None = None, batches_per_proc: int = 2, min_cases_per_batch: int = 1) -> list[dict]:
     """Run cases in child processes; result i corresponds to cases[i]."""
     nproc = nproc or NPROC
     n = len(cases)
     if n == 0:
         return []
-    nb = max(1, min(n, nproc * batches_per_proc))
+    nb = max(1, min(n // max(1, min_cases_per_batch), nproc * batches_per_proc))
     batches: list[list[tuple[int, dict]]] = [[] for _ in range(nb)]
     for i, c in enumerate(cases):
         batches[i % nb].append((i, c))
